@@ -185,6 +185,14 @@ def judgeSign (key digest : Bytes) (resp : String) : Verdict :=
     | _, _, _ => .fails "unparsable"
   | _ => .fails "signing a valid key/digest must succeed"
 
+def eip191 (m : Bytes) : Bytes :=
+  Prim.keccak256 ([0x19] ++ "Ethereum Signed Message:\n".toUTF8.toList ++ (toString m.length).toUTF8.toList ++ m)
+
+/-- a command that prints a digest: `0x` + 64 lower-case hex digits + newline -/
+def judgeCliDigest (digest : Bytes) (resp : String) : Verdict :=
+  let want := "0x" ++ String.join (digest.map fun b => lowerHexFixed b.toNat 2) ++ "\n"
+  expect (resp == "ok " ++ hx want.toUTF8.toList) "printed digest differs from the Keccak-256 the statement defines for this input"
+
 /-! ### C14 -/
 
 
